@@ -64,13 +64,13 @@ def build(repo=None):
     return os.path.join(env['CARGO_TARGET_DIR'], 'release', 'vreplay')
 
 
-def search(pid, v, seed):
+def search(pid, v, seed, cases=None):
     fams = FAMILIES.get(pid)
     if not fams:
         return None
     exe = build()
-    p = subprocess.run([exe, 'search', ','.join(fams), str(seed or 1), str(CASES), pid],
-                       capture_output=True, text=True, timeout=600)
+    p = subprocess.run([exe, 'search', ','.join(fams), str(seed or 1), str(cases or CASES), pid],
+                       capture_output=True, text=True, timeout=1800)
     line = (p.stdout.strip().split('\n') or ['null'])[-1]
     w = json.loads(line)
     if w is None:
